@@ -40,7 +40,7 @@ def _cases(draw, tier):
     if draw(st.integers(0, 5)) == 0:
         return draw(_fault_case(cfg))
     b, feats = G.general_program(draw, cfg, max_steps=28,
-                                 extra=['createzone', 'createzone', 'zone-edge-fill', 'zone-edge-fill', 'zone-edge-fill',
+                                 extra=['createzone', 'createzone', 'zone-edge-fill', 'zone-edge-fill', 'zone-edge-fill', 'orgzone-outside',
                                         'include', 'include', 'memzone', 'memzone', 'orgzone', 'orgzone'])
     return {'isa': cfg, 'items': b.items, 'lo': b.lo, 'fill': draw(st.sampled_from([0, 0xEE])), 'feats': sorted(feats)}
 
